@@ -13,6 +13,16 @@ CLAIMS = {
              note='as C01', ref='5/C03', tech='Coq proof about executable model + exhaustive structural correspondence'),
  'C04': dict(text='Theorems in coq/Properties_C04.v: exact failure sets of every key operation, all-zero output on failure, commutation of secret/public operations over any tweak chain (under MathFacts), comparison = lexicographic order of compressed encodings, sort = sorted permutation. Tie: correspondence on boundary scalars, chains up to 12 steps, lists 0..200 keys.',
              note='as C01', ref='5/C04', tech='Coq proof about executable model + model/implementation correspondence'),
+'C11': dict(text='Theorems in coq/Properties_C11.v about the surjection-proof model: parse_exact (canonical encodings only: <= 256 inputs, no padding bits, exact length), both round trips, verify_exact (= counts consistent, scalars < n, Borromean ring over output - selected inputs), named rejection theorems, initialize soundness, generate=>verify under MathFacts. Tie: correspondence incl. a model-side prover that re-encodes chosen small scalars as s+n, every n_inputs field value around the limit, all padding patterns.',
+             note='as C01; generate_verifies assumes MathFacts and non-degenerate hash-derived scalars (named premises)', ref='5/C11', tech='Coq proof about executable model + model/implementation correspondence'),
+ 'C16': dict(text='Theorems in coq/Properties_C16.v about the whitelist model: verify_exact, verify_rejects_empty (the model IS the property), verify_rejects_count_mismatch / zero_or_big_scalar, sign_rejects_bad_secret, parse_exact + round trips, sign=>verify under MathFacts; plus whitelist_verify_as_coded_accepts_empty_ring (refutation witness of the pre-fix code, finding F1, fixed in /repo commit 375d45d). Tie: correspondence on key counts 0..8 and 254/255, forged-from-public-data strings for every count, bit flips, s+n re-encodings.',
+             note='as C01', ref='5/C16 and 6 (F1)', tech='Coq proof about executable model + model/implementation correspondence'),
+ 'C17': dict(text='Theorems in coq/Properties_C17.v: inc_aggregate_assoc (incremental aggregation over ANY split = one-shot aggregation, byte for byte), aggregate_length contract, aggverify_eq_spec, aggverify_rejects_{length,r_ge_p,offcurve,s_ge_n}, aggregate=>aggverify under MathFacts. Tie: correspondence on secp256k1 AND on the repository EXHAUSTIVE_TEST_ORDER=13 group (where every s has re-encodings s+13k).',
+             note='as C01', ref='5/C17', tech='Coq proof about executable model + correspondence on secp256k1 and the order-13 group'),
+ 'C18': dict(text='Theorems in coq/Properties_C18.v: ecdh_exact / xdh_exact (output = selected hash of the coordinates of secret*Peer iff 1 <= secret < n; failure masking), ecdh_symmetric under MathFacts, ElligatorSwift decode/encode/create theorems in _partial form (they rest on run-time checks of the model that never fired; the algebraic identities of the map are not proved). Tie: byte-identical encodings (same PRNG draws and branches), all special cases of the map, BIP-324 vectors.',
+             note='as C01; ElligatorSwift algebra is covered by correspondence only (stated as partial)', ref='5/C18', tech='Coq proof about executable model + model/implementation correspondence'),
+ 'C19': dict(text='Theorems in coq/Properties_C19.v: verify_eq_spec and 10 named rejection theorems (length, non-pow2, generator count, rho = 0, scalar >= n, bad point, sign byte > 3, infinity with sign, small scratch), prove_length, generators_prefix_consistent, parse rejects malformed lists without leak. Completeness of the norm argument is NOT proved (checked on a toy curve by vm_compute and by honest proofs in the correspondence). Tie: byte-identical prover, verifier over all mutations of honest proofs, generator lists 0..256 with leak counting.',
+             note='as C01; prove_verifies not proved (partial)', ref='5/C19', tech='Coq proof about executable model + model/implementation correspondence'),
 }
 m = {"version": 1, "setup_cmd": "./setup.sh",
      "hooks": {"guard": "SECP256K1_ZKP_VERIF", "enable": "the harness (harness/impl_driver.c) is compiled as one translation unit that includes /repo/src/secp256k1.c with -DSECP256K1_ZKP_VERIF=1; no source hook was needed so far",
